@@ -21,7 +21,10 @@ RULE = ("convexhull_mask: (1) integer-lattice clouds of 3..15 points (collinear 
         "dyadic/decimal scalings and offsets up to 1e7 per axis (x and y scaled differently), the model being evaluated on the BASE "
         "coordinates; (4) array form vs grid form (xarray.Dataset, dims northing/easting or custom) on non-square grids whose coordinate vectors "
         "are ascending, descending, unevenly spaced or both, with the data hull confined to an off-centre part of the grid, also after exact "
-        "rescaling of cloud and grid to offsets up to 2^30 / 1e7; project_grid input grids use the same axis styles. "
+        "rescaling of cloud and grid to offsets up to 2^30 / 1e7; project_grid input grids use the same axis styles. Every 2-D array argument "
+        "(data and query coordinates of the array form as non-square 2-D arrays, meshgrid arrays, project_grid value arrays) comes in a "
+        "randomly chosen memory layout (C, Fortran, transposed view of a transposed copy, strided view), easting and northing independently; "
+        "every third lattice cloud has int64/int32 coordinates; the model always sees the logical C-order sequence. "
         "project_grid: 5x6..8x9 grids with 0..4 NaN holes (incl. corners), names foo/None/custom, projections axis-aligned affine (dyadic "
         "coefficients, incl. negative scales and offsets up to 1e6), separable monotone cubic and Mercator-like, non-separable quadratic and "
         "rotation; methods linear/nearest/cubic x antialias on/off x arguments none/shape/spacing/region(+shape|spacing); the projection "
@@ -95,15 +98,53 @@ def nondegenerate(P):
 # ---------------------------------------------------------------------------
 # convexhull_mask
 # ---------------------------------------------------------------------------
-def mask_case(vd, dx, dy, qx, qy, kind):
-    dx, dy, qx, qy = [np.asarray(v, dtype=float) for v in (dx, dy, qx, qy)]
+def shape2(n, rnd):
+    """a non-square 2-D shape with n elements (None when n is prime or a square with no other factorisation)"""
+    opts = [(a, n // a) for a in range(2, n) if n % a == 0 and a != n // a]
+    return rnd.choice(opts) if opts else None
+
+
+def laid_out(a, rnd, as2d=True):
+    """the same logical element sequence, reshaped to a non-square 2-D array when the size allows, in a random memory
+    layout (C, Fortran, transposed view of a transposed copy, strided view): results must not depend on it"""
+    a = np.asarray(a)
+    if rnd is None:
+        return a
+    if a.ndim == 1 and as2d:
+        sh = shape2(a.size, rnd)
+        if sh is not None and rnd.random() < 0.8:
+            a = a.reshape(sh)
+    return core.relayout(a, rnd)
+
+
+def layout_of(a):
+    return "%s%s" % (list(a.shape), "C" if a.flags["C_CONTIGUOUS"] else ("F" if a.flags["F_CONTIGUOUS"] else "strided"))
+
+
+def mask_case(vd, dx, dy, qx, qy, kind, rnd=None, dtype=float):
+    """[rnd] given: data and query arrays become non-square 2-D arrays where their size allows (same shape for easting and
+    northing of a pair) with independently chosen memory layouts; the model sees the logical C-order sequence"""
+    dx, dy, qx, qy = [np.asarray(v, dtype=dtype) for v in (dx, dy, qx, qy)]
+    if rnd is not None:
+        if dx.ndim == 1:
+            sh = shape2(dx.size, rnd)
+            if sh is not None and rnd.random() < 0.7:
+                dx, dy = dx.reshape(sh), dy.reshape(sh)
+        if qx.ndim == 1:
+            sh = shape2(qx.size, rnd)
+            if sh is not None:
+                qx, qy = qx.reshape(sh), qy.reshape(sh)
+        dx, dy, qx, qy = [core.relayout(a, rnd) for a in (dx, dy, qx, qy)]
     obs = vd.convexhull_mask((dx, dy), coordinates=(qx, qy))
     ok = obs.shape == qx.shape and obs.dtype == bool
-    o = [bool(b) for b in obs.ravel()] if ok else []
-    term = "c16_mask %s %s %s %s %s" % (dl(dx), dl(dy), dl(qx.ravel()), dl(qy.ravel()), bl(o))
-    repro = ("import verde, numpy as np; print(verde.convexhull_mask((np.array(%r), np.array(%r)), coordinates=(np.array(%r), np.array(%r))))"
-             % (dx.tolist(), dy.tolist(), qx.tolist(), qy.tolist()))
-    return Case({"fn": "convexhull_mask", "data": [dx.tolist(), dy.tolist()], "query": [qx.tolist(), qy.tolist()]}, o, term, repro, kind)
+    o = [bool(b) for b in np.asarray(obs).ravel(order="C")] if ok else []
+    term = "c16_mask %s %s %s %s %s" % (dl(dx.ravel(order="C")), dl(dy.ravel(order="C")), dl(qx.ravel(order="C")), dl(qy.ravel(order="C")), bl(o))
+    lay = [layout_of(a) for a in (dx, dy, qx, qy)]
+    repro = ("import verde, numpy as np; # layouts (data e, n, query e, n): %s dtype %s\n"
+             "print(verde.convexhull_mask((np.array(%r), np.array(%r)), coordinates=(np.asfortranarray(np.array(%r)), np.array(%r))))"
+             % (lay, np.dtype(dtype).name, dx.tolist(), dy.tolist(), qx.tolist(), qy.tolist()))
+    return Case({"fn": "convexhull_mask", "data": [dx.tolist(), dy.tolist()], "query": [qx.tolist(), qy.tolist()], "layouts": lay,
+                 "dtype": np.dtype(dtype).name}, o, term, repro, kind)
 
 
 def lattice_cloud(rnd, n, size=8):
@@ -153,7 +194,7 @@ def lattice_queries(rnd, pts, nq, size=8):
     return qs
 
 
-def mask_scaled_case(vd, pts, qs, sx, ox, sy, oy, kind):
+def mask_scaled_case(vd, pts, qs, sx, ox, sy, oy, kind, rnd=None):
     bx = np.array([p[0] for p in pts], dtype=float)
     by = np.array([p[1] for p in pts], dtype=float)
     bqx = np.array([q[0] for q in qs], dtype=float)
@@ -163,8 +204,19 @@ def mask_scaled_case(vd, pts, qs, sx, ox, sy, oy, kind):
         for u, v in zip(b, m):
             if F(s) * F(u) + F(o) != F(v):
                 return None        # not exact in doubles: not a valid instance of this stream
-    obs_base = vd.convexhull_mask((bx, by), coordinates=(bqx, bqy))
-    obs = vd.convexhull_mask((dx, dy), coordinates=(qx, qy))
+    if rnd is not None:     # non-square 2-D query arrays (same shape for the pair), independent memory layouts
+        sh = shape2(bqx.size, rnd)
+        shape = sh if sh is not None else bqx.shape
+        obs_base = vd.convexhull_mask((core.relayout(bx, rnd), core.relayout(by, rnd)),
+                                      coordinates=(core.relayout(bqx.reshape(shape), rnd), core.relayout(bqy.reshape(shape), rnd)))
+        obs = vd.convexhull_mask((core.relayout(dx, rnd), core.relayout(dy, rnd)),
+                                 coordinates=(core.relayout(qx.reshape(shape), rnd), core.relayout(qy.reshape(shape), rnd)))
+        if obs.shape != tuple(shape) or obs_base.shape != tuple(shape):
+            obs = obs_base = np.zeros(0, dtype=bool)
+        obs_base, obs = np.asarray(obs_base).ravel(order="C"), np.asarray(obs).ravel(order="C")
+    else:
+        obs_base = vd.convexhull_mask((bx, by), coordinates=(bqx, bqy))
+        obs = vd.convexhull_mask((dx, dy), coordinates=(qx, qy))
     term = "c16_mask_scaled %s %s %s %s %s %s %s %s %s %s %s %s %s %s" % (
         dl(bx), dl(by), dl(bqx), dl(bqy), cD(sx), cD(ox), cD(sy), cD(oy), dl(dx), dl(dy), dl(qx), dl(qy),
         bl(obs_base.ravel()), bl(obs.ravel()))
@@ -176,10 +228,15 @@ def mask_scaled_case(vd, pts, qs, sx, ox, sy, oy, kind):
                 {"mask_base": [bool(b) for b in obs_base], "mask": [bool(b) for b in obs]}, term, repro, kind)
 
 
-def mask_forms_case(vd, dx, dy, east, north, dims, kind):
+def mask_forms_case(vd, dx, dy, east, north, dims, kind, rnd=None):
     import xarray as xr
     dx, dy, east, north = [np.asarray(v, dtype=float) for v in (dx, dy, east, north)]
     coords = np.meshgrid(east, north)
+    if rnd is not None:    # easting and northing arrays with independently chosen memory layouts
+        coords = [core.relayout(c, rnd) for c in coords]
+        dx, dy = laid_out(dx, rnd), laid_out(dy, rnd, as2d=False)
+        if dx.shape != dy.shape:
+            dy = core.relayout(dy.reshape(dx.shape), rnd)
     arr = vd.convexhull_mask((dx, dy), coordinates=coords)
     vals = np.arange(1.0, east.size * north.size + 1).reshape(north.size, east.size)
     ds = xr.Dataset({"scalars": (list(dims), vals)}, coords={dims[1]: east, dims[0]: north})
@@ -191,7 +248,7 @@ def mask_forms_case(vd, dx, dy, east, north, dims, kind):
                and bool(np.all(ov[kept] == vals[kept])))
     arr_rows = arr.tolist() if arr.shape == vals.shape else []
     kept_rows = kept.tolist() if kept.shape == vals.shape else []
-    term = "c16_mask_forms %s %s %s %s %s %s %s" % (dl(dx), dl(dy), dl(east), dl(north), brows(arr_rows), brows(kept_rows), cbool(dims_ok))
+    term = "c16_mask_forms %s %s %s %s %s %s %s" % (dl(np.ravel(dx)), dl(np.ravel(dy)), dl(east), dl(north), brows(arr_rows), brows(kept_rows), cbool(dims_ok))
     repro = ("import verde, numpy as np, xarray as xr; d=(np.array(%r), np.array(%r)); e=np.array(%r); n=np.array(%r); "
              "print(verde.convexhull_mask(d, coordinates=np.meshgrid(e, n)).astype(int)); "
              "g=xr.Dataset({'scalars': (%r, np.ones((n.size, e.size)))}, coords={%r: e, %r: n}); "
@@ -224,7 +281,7 @@ def random_cloud_case(vd, rnd, kind):
     k = rnd.randint(10, 30)
     qx += [cx + 1.3 * ex * rnd.uniform(-1, 1) for _ in range(k)]
     qy += [cy + 1.3 * ey * rnd.uniform(-1, 1) for _ in range(k)]
-    return mask_case(vd, dx, dy, qx, qy, kind)
+    return mask_case(vd, dx, dy, qx, qy, kind, rnd=rnd)
 
 
 # ---------------------------------------------------------------------------
@@ -302,14 +359,14 @@ def styled_axis(rnd, start, step, n, style):
     return ax[::-1].copy() if style.endswith("descending") else ax
 
 
-def make_grid(rnd, nprng, ny, nx, name, dims, holes, smooth):
+def make_grid(rnd, nprng, ny, nx, name, dims, holes, smooth, even=False):
     import xarray as xr
     e0 = rnd.choice([0.0, -2.5, 1.0, 3.25])
     n0 = rnd.choice([0.0, 1.0, -4.0, 0.5])
     de = rnd.choice([0.5, 1.0, 0.25, 0.75])
     dn = rnd.choice([0.5, 1.0, 0.25, 1.5])
-    east = styled_axis(rnd, e0, de, nx, rnd.choice(["ascending"] * 5 + AXIS_STYLES[1:]))
-    north = styled_axis(rnd, n0, dn, ny, rnd.choice(["ascending"] * 3 + ["descending"] * 3 + AXIS_STYLES[2:]))
+    east = styled_axis(rnd, e0, de, nx, rnd.choice(["ascending"] * 5 + (AXIS_STYLES[1:2] if even else AXIS_STYLES[1:])))
+    north = styled_axis(rnd, n0, dn, ny, rnd.choice(["ascending"] * 3 + ["descending"] * 3 + ([] if even else AXIS_STYLES[2:])))
     if smooth:
         E, N = np.meshgrid(east, north)
         v = 3.0 + np.sin(E / 2) * np.cos(N / 3) + 0.1 * E
@@ -320,11 +377,12 @@ def make_grid(rnd, nprng, ny, nx, name, dims, holes, smooth):
     for k in range(holes):
         i, j = rnd.choice(corners) if (k == 0 and rnd.random() < 0.4) else rnd.choice(cells)
         v[i, j] = np.nan
+    v = core.relayout(v, rnd)       # memory layout of the value array must not matter
     da = xr.DataArray(v, coords={dims[0]: north, dims[1]: east}, dims=dims, name=name)
     return da, east, north, v
 
 
-def pg_cases(vd, rnd, nprng, proj, separable, method, antialias, argkind, kind, shrink_stream=False, fixed=None):
+def pg_cases(vd, rnd, nprng, proj, separable, method, antialias, argkind, kind, shrink_stream=False, fixed=None, plain=False):
     """run project_grid once; return the list of cases (main, range, inside) built from the observation"""
     if fixed is not None:       # a deterministic grid (large-offset stream): (east, north, values, name, dims)
         import xarray as xr
@@ -336,8 +394,8 @@ def pg_cases(vd, rnd, nprng, proj, separable, method, antialias, argkind, kind, 
         nx = ny + rnd.choice([1, 1, -1, 2]) if ny > 5 else ny + rnd.choice([1, 2])
         name = rnd.choice(["foo", None, "scalars", "temperature"])
         dims = rnd.choice([("northing", "easting"), ("lat", "lon"), ("y", "x")])
-        holes = rnd.choice([0, 0, 1, 2, 4])
-        da, east, north, v = make_grid(rnd, nprng, ny, nx, name, dims, holes, smooth=rnd.random() < 0.3)
+        holes = 0 if plain else rnd.choice([0, 0, 1, 2, 4])
+        da, east, north, v = make_grid(rnd, nprng, ny, nx, name, dims, holes, smooth=rnd.random() < 0.3, even=plain)
     if isinstance(proj, AffineFactory):
         proj = proj.make(east, north)
     # what the projection will produce (to choose sensible region / spacing arguments)
@@ -434,11 +492,17 @@ def generate(tier, seed):
     # (1) lattice clouds
     for i in range(60 if quick else 600):
         pts = lattice_cloud(rnd, rnd.randint(3, 15))
-        qs = lattice_queries(rnd, pts, rnd.randint(20, 40))
-        cases.append(mask_case(vd, [p[0] for p in pts], [p[1] for p in pts], [q[0] for q in qs], [q[1] for q in qs], "mask-lattice"))
+        qs = lattice_queries(rnd, pts, rnd.choice([20, 21, 24, 28, 30, 32, 35, 36, 39, 40]))
+        px, py, qx, qy = [p[0] for p in pts], [p[1] for p in pts], [q[0] for q in qs], [q[1] for q in qs]
+        if i % 3 == 1:      # integer dtypes: cloud and queries scaled by 4 onto the integer lattice (exact)
+            px, py, qx, qy = [[int(round(4 * t)) for t in v] for v in (px, py, qx, qy)]
+            cases.append(mask_case(vd, px, py, qx, qy, "mask-lattice", rnd=rnd, dtype=rnd.choice([np.int64, np.int32])))
+        else:
+            cases.append(mask_case(vd, px, py, qx, qy, "mask-lattice", rnd=rnd))
     # the doctest cloud, 2-D query arrays
     g = vd.grid_coordinates((0, 5, -10, -4), spacing=1)
     cases.append(mask_case(vd, [2, 3, 2, 3], [-9, -9, -6, -6], g[0], g[1], "mask-lattice"))
+    cases.append(mask_case(vd, [[2, 3], [2, 3]], [[-9, -9], [-6, -6]], np.asfortranarray(g[0]), g[1].T.copy().T, "mask-lattice"))
     # (2) random clouds
     k = 0
     while k < (40 if quick else 400):
@@ -451,11 +515,11 @@ def generate(tier, seed):
     k = 0
     while k < (40 if quick else 400):
         pts = lattice_cloud(rnd, rnd.randint(3, 12))
-        qs = lattice_queries(rnd, pts, rnd.randint(15, 30))
+        qs = lattice_queries(rnd, pts, rnd.choice([15, 18, 20, 21, 24, 26, 28, 30]))
         sx, sy = rnd.choice(scales), rnd.choice(scales)
         ox = rnd.choice([0.0, sx * rnd.randint(-10 ** 6, 10 ** 6), 1e7, -3e6, sx * 2.0 ** 30])
         oy = rnd.choice([0.0, sy * rnd.randint(-10 ** 6, 10 ** 6), 1e7, 5e5, -sy * 2.0 ** 30])
-        c = mask_scaled_case(vd, pts, qs, sx, ox, sy, oy, "mask-scaled")
+        c = mask_scaled_case(vd, pts, qs, sx, ox, sy, oy, "mask-scaled", rnd=rnd)
         if c is not None:
             cases.append(c)
             k += 1
@@ -487,7 +551,7 @@ def generate(tier, seed):
             sy, oy = rnd.choice([(1000.0, -1e6), (1.0, 1e7), (2.0 ** 20, 0.0), (0.5, 5e5)])
             dxs, east, dys, north = sx * dxs + ox, sx * east + ox, sy * dys + oy, sy * north + oy
         dims = rnd.choice([("northing", "easting"), ("lat", "lon"), ("y", "x")])
-        cases.append(mask_forms_case(vd, dxs, dys, east, north, dims, "mask-forms"))
+        cases.append(mask_forms_case(vd, dxs, dys, east, north, dims, "mask-forms", rnd=rnd))
     # (5) project_grid
     argkinds = ["none", "none", "shape", "spacing", "region", "region+shape", "region+spacing"]
     combos = [(m, aa) for m in ("linear", "nearest", "cubic") for aa in (False, True)]
@@ -503,6 +567,16 @@ def generate(tier, seed):
                 proj = Projection(nm, f)
             ak = "none" if (isinstance(proj, AffineFactory) and not aa and rnd.random() < 0.6) else rnd.choice(argkinds)
             cases += pg_cases(vd, rnd, nprng, proj, sep, m, aa, ak, "project_grid")
+    # (5b) antialias with linear / cubic on hole-free, evenly spaced grids, separable projections, default arguments:
+    #      here every node strictly inside the hull must be finite
+    for i in range(3 if quick else 20):
+        for m in ("linear", "cubic"):
+            if i % 2:
+                proj = AffineFactory(rnd)
+            else:
+                nm = rnd.choice(["cubic-separable", "mercator-like"])
+                proj = Projection(nm, NONLINEAR[nm][0])
+            cases += pg_cases(vd, rnd, nprng, proj, True, m, True, "none", "project_grid", plain=True)
     # (6) the blocked mean shrinks the interpolator's hull (only when recorded as a known finding)
     if shrink_known():
         for i in range(4 if quick else 20):
